@@ -307,6 +307,10 @@ class Executor:
 
     # ---- expressions: generators of (Path, Val|Exc)
     def ev(self, e, p):
+        if self.c.expr_hooks and not isinstance(e, (ast.Constant, ast.Name)):
+            h = self.c.expr_hooks.get(ast.unparse(e))
+            if h is not None:
+                yield from h(self, e, p); return
         m = getattr(self, 'ev_' + type(e).__name__, None)
         if not m: raise Unsupported(self.site(e) + ' ' + type(e).__name__)
         yield from m(e, p)
@@ -533,6 +537,13 @@ class Executor:
             yield p, Bool(c.x['present'](item.t.as_string())); return
         if c.sort == 'set' and item.sort == 'str':
             yield p, Bool(c.t[item.t]); return
+        if c.sort == 'set' and item.sort == 'J':          # membership of a JSON value in a set/dict of strings: hash lookup
+            j = item.t; unh = z3.Or(tag(j) == TAG['list'], tag(j) == TAG['dict'])
+            q = p.fork(unh)
+            if sat(q.pc): yield q, Exc('TypeError', site)
+            q = p.fork(z3.Not(unh))
+            if sat(q.pc): yield q, Bool(z3.And(tag(j) == TAG['str'], c.t[sof(j)]))
+            return
         if c.sort == 'litdict' and item.sort == 'str' and isinstance(c.x, dict):
             yield p, Bool(z3.Or(*[item.t == z3.StringVal(k) for k in c.x]) if c.x else z3.BoolVal(False)); return
         if c.sort == 'J' and item.sort == 'str':
@@ -575,6 +586,8 @@ class Executor:
                 if h is None: raise Unsupported(site + f' slice of {o.sort}')
                 yield from h(self, o, e.slice, p1, site)
             return
+        if ast.unparse(e) in self.c.globals:
+            yield p, self.c.globals[ast.unparse(e)]; return
         for p1, vs in self.ev_seq([e.value, e.slice], p):
             if isinstance(vs, Exc):
                 yield p1, vs; continue
@@ -701,7 +714,7 @@ class Executor:
         yield p, Val('func', x=e)
 
     def ev_GeneratorExp(self, e, p):
-        h = self.c.comprehensions.get(ast.unparse(e)) or self.registry.comprehension
+        h = self.c.comprehensions.get(ast.unparse(e)) or self.c.comprehensions.get('*') or self.registry.comprehension
         if h is None: raise Unsupported(self.site(e) + ' comprehension')
         yield from h(self, e, p)
     ev_ListComp = ev_GeneratorExp
@@ -912,7 +925,19 @@ class Executor:
         return res
 
     def st_With(self, st, p):
-        raise Unsupported(f'{self.qualname}:{st.lineno} with')
+        """`with cm as name: body` for context managers that do not swallow exceptions (A): evaluate, bind, run the body"""
+        paths = [p]; res = []
+        for item in st.items:
+            nxt = []
+            for q in paths:
+                for q1, v in self.ev(item.context_expr, q):
+                    if isinstance(v, Exc):
+                        res.append(('raise', q1, v)); continue
+                    if item.optional_vars is not None:
+                        q1 = q1.fork(); self.assign(item.optional_vars, v, q1)
+                    nxt.append(q1)
+            paths = nxt
+        return res + self.block(st.body, paths)
 
     def st_For(self, st, p):
         res = []
@@ -927,7 +952,7 @@ class Executor:
             for q, it in self.iterable(it0, q, self.site(st.iter)):
                 if isinstance(it, Exc):
                     res.append(('raise', q, it)); continue
-                if it.sort in ('tuple', 'litlist') and spec.get('kind') != 'inv':       # literal sequence: unroll
+                if it.sort in ('tuple', 'litlist'):       # literal sequence: unroll
                     live = [q]
                     for item in it.x:
                         nxt = []
